@@ -1287,7 +1287,7 @@ func dedupSort(ts []*Term) []*Term {
 func smtSym(name string) string {
 	ok := true
 	for _, r := range name {
-		if !(r >= 'a' && r <= 'z' || r >= 'A' && r <= 'Z' || r >= '0' && r <= '9' || r == '_' || r == '.' || r == '#' || r == '$' || r == '!') {
+		if !(r >= 'a' && r <= 'z' || r >= 'A' && r <= 'Z' || r >= '0' && r <= '9' || r == '_' || r == '.' || r == '$' || r == '!') {
 			ok = false
 			break
 		}
